@@ -72,7 +72,11 @@ def is_known(known, prop, unit, o):
         if prop not in k.get('property', '').split(',') or k.get('unit') != unit:
             continue
         pat = k.get('obligation', '')
-        if pat and (pat == o['name'] or re.search(pat, o['description'] or '')):
+        try:
+            hit = bool(pat) and (pat == o['name'] or re.search(pat, o['description'] or '') is not None)
+        except re.error:
+            hit = bool(pat) and pat in (o['description'] or '')
+        if hit:
             if k.get('line') and str(o.get('line')) != k['line']:
                 continue
             return k
